@@ -236,6 +236,10 @@ func builtinJSONStringifyWalk(ctx builtinJSONStringifyContext, key string, holde
 		integer := value.number()
 		switch integer.kind {
 		case numberInteger:
+			if integer.int64 > 1<<53 || integer.int64 < -(1<<53) {
+				// ES5 9.8.1: shortest round-trip digits, not every digit of the int64
+				return float64(integer.int64), true
+			}
 			return integer.int64, true
 		case numberFloat:
 			return integer.float64, true
